@@ -347,6 +347,11 @@ func HostileText(r *rand.Rand) string {
 	if r.Intn(5) == 0 {
 		return RandIdent(r, 1+r.Intn(8))
 	}
+	if r.Intn(12) == 0 {
+		// text that starts with a line break (the one character a tree builder drops after <pre>,
+		// <listing> and <textarea> start tags; a tokenizer does not)
+		return Pick(r, []string{"\n", "\r\n", "\n\n", "\r"}) + RandIdent(r, 1+r.Intn(5))
+	}
 	return textPool[r.Intn(len(textPool))]
 }
 
